@@ -205,14 +205,58 @@ fn c07_values_formula_1gate() { values_formula(1, kani::any()); }
 #[kani::unwind(5)]
 fn c07_values_formula_2gates() { values_formula(2, kani::any()); }
 
-/// quick-tier variant: the scale ranges over representative constants (zero, a power of two, non-powers of two,
-/// a subnormal), offset and raw value fully symbolic
+/// quick tier (1): the decode level and the model level agree bit for bit (variant by variant) for representative
+/// scales (zero, a power of two, non-powers of two, a subnormal, a negative), every finite offset, all 256 raw values
 #[kani::proof]
 #[kani::unwind(4)]
-fn c07_values_formula_scales() {
+fn c07_values_levels_agree() {
     let k: u8 = kani::any();
     let scale = match k % 6 { 0 => 0.0f32, 1 => 2.0, 2 => 300.0, 3 => 2.8361, 4 => 1.0e-39, _ => -0.5 };
-    values_formula(1, scale);
+    let b = block_with_scale(1, scale);
+    let d = b.decoded_values();
+    let mv = b.moment_data().values();
+    assert!(d.len() == 1 && mv.len() == 1);
+    let same = match (d[0], mv[0]) {
+        (ScaledMomentValue::Value(x), MomentValue::Value(y)) => x.to_bits() == y.to_bits(),
+        (ScaledMomentValue::BelowThreshold, MomentValue::BelowThreshold) => true,
+        (ScaledMomentValue::RangeFolded, MomentValue::RangeFolded) => true,
+        _ => false,
+    };
+    assert!(same);
+    core::mem::forget(d);
+    core::mem::forget(mv);
+    core::mem::forget(b);
+}
+
+/// quick tier (2): the conversion formula at concrete (scale, offset) points, all 256 raw values
+#[kani::proof]
+#[kani::unwind(4)]
+fn c07_values_formula_points() {
+    let k: u8 = kani::any();
+    let (scale, offset) = match k % 5 { 0 => (2.0f32, 66.0f32), 1 => (300.0, -60.5), 2 => (2.8361, 2.0), 3 => (0.0, 5.0), _ => (0.5, 0.0) };
+    let mut hb = [0u8; 28];
+    hb[9] = 1;
+    hb[19] = 8;
+    hb[20..24].copy_from_slice(&scale.to_bits().to_be_bytes());
+    hb[24..28].copy_from_slice(&offset.to_bits().to_be_bytes());
+    let mut r: &[u8] = &hb;
+    let h: GenericDataBlockHeader = crate::util::deserialize(&mut r).unwrap();
+    let mut b = GenericDataBlock::new(h);
+    let raw: u8 = kani::any();
+    b.encoded_data[0] = raw;
+    let d = b.decoded_values();
+    assert!(d.len() == 1);
+    if scale != 0.0 {
+        match raw {
+            0 => assert!(d[0] == ScaledMomentValue::BelowThreshold),
+            1 => assert!(d[0] == ScaledMomentValue::RangeFolded),
+            _ => match d[0] { ScaledMomentValue::Value(v) => assert!(v.to_bits() == ((raw as f32 - offset) / scale).to_bits()), _ => assert!(false) },
+        }
+    } else if raw >= 2 {
+        match d[0] { ScaledMomentValue::Value(v) => assert!(v == raw as f32), _ => assert!(false) }
+    }
+    core::mem::forget(d);
+    core::mem::forget(b);
 }
 
 /// exactly one value per gate for 16-bit moments too (GenericDataBlock::new sizes the buffer gates x 2)
